@@ -112,6 +112,7 @@ var c19Kinds = []struct {
 	// governance sets parameters to the lowest values validation accepts / to values unlike the defaults
 	{"ParamsZeroSecond", nil}, {"ParamsAltSecond", nil},
 	{"AddRecordSecond", []string{"AddRecord"}}, // a second sub-record, added out of alphabetical order
+	{"KeybaseSecond", []string{"InitProvider:P1"}}, // a long provider identity with a multi-byte character across the 64th byte
 }
 
 func (s C19) Events(env world.Env, mm mc.Model) []string {
@@ -121,7 +122,7 @@ func (s C19) Events(env world.Env, mm mc.Model) []string {
 		if has(m.Done, k.name) {
 			continue
 		}
-		if !s.Deep && (k.name == "BuyStorageSecond" || k.name == "AttReqSecond" || k.name == "RepReqSecond" || k.name == "AddRecordSecond" || strings.HasPrefix(k.name, "Params")) {
+		if !s.Deep && (k.name == "BuyStorageSecond" || k.name == "AttReqSecond" || k.name == "RepReqSecond" || k.name == "AddRecordSecond" || k.name == "KeybaseSecond" || strings.HasPrefix(k.name, "Params")) {
 			continue // reachable only far beyond the depth of the search from the empty state: explored by the Deep variant
 		}
 		ok := true
@@ -197,6 +198,8 @@ func c19Do(env world.Env, m *c19Model, ev string) bool {
 			w.App.MintKeeper.SetParams(ctx, mp)
 		})
 		return ok
+	case "KeybaseSecond":
+		msg = storagetypes.NewMsgSetProviderKeybase(w.A("P1").Bech, strings.Repeat("k", 63)+"\u00e9\u00e9 and then some more text to be well over the limit")
 	case "AddRecordSecond":
 		msg = rnstypes.NewMsgAddRecord(u, "alpha.jkl", "aaa", u, "{}")
 	case "BuyStorageSecond":
